@@ -5,7 +5,8 @@ odml = W.odml
 from odml import dtypes
 
 TEXT = {"none": None, "X": "Amplifier gain (dB)", "Xv": "amplifier   GAIN(dB)", "Y": "Something else"}     # Xv: other case, more / no whitespace
-VALS = {"v12": [1, 2], "v23": [2, 3], "v45": [4, 5], "text": ["abc"], "empty": [], "float": [2.5, 3.0], "mixed": ["3", "x"], "v01": [0, 1]}          # v01: a falsy value the destination lacks
+VALS = {"v12": [1, 2], "v23": [2, 3], "v45": [4, 5], "text": ["abc"], "empty": [], "float": [2.5, 3.0], "mixed": ["3", "x"], "v01": [0, 1],
+        "f12": [1.0, 2.0]}           # f12: floats equal in value to the ints of v12          # v01: a falsy value the destination lacks
 
 
 def norm(t):
@@ -75,7 +76,10 @@ def conv_table(objs, st):
             out = []
             for v in o.values:
                 try:
-                    cv = dtypes.get(v, d) if d is not None else v
+                    if d in ("string", "text", "url", "person") and isinstance(v, (int, float)) and not isinstance(v, bool):
+                        cv = str(v)               # the text of a number, computed here: it may not depend on what was converted before
+                    else:
+                        cv = dtypes.get(v, d) if d is not None else v
                     out.append({"t": "list", "e": [W._s(x) for x in cv]} if isinstance(cv, list) else {"t": type(cv).__name__, "e": [W._s(cv)]})
                 except Exception:
                     out.append({"t": "!unconvertible", "e": []})
